@@ -78,6 +78,11 @@ class Module:
         return self._bindings
 
 
+#: every /repo source file any Loader of this process parsed (the verified text: contract-bearing functions AND the callee code the
+#: symbolic execution runs inline - disposables, Notification, Subject, ... - re-read on every run)
+ALL_FILES_READ: dict[str, str] = {}
+
+
 class Loader:
     def __init__(self, repo: str | None = None):
         self.repo = repo or REPO
@@ -118,6 +123,8 @@ class Loader:
         self.modules[modname] = m
         if modname.split(".")[0] == "reactivex":
             self.files_read[m.relpath] = hashlib.sha256(src.encode()).hexdigest()
+            if rel not in getattr(self, "overrides", {}):
+                ALL_FILES_READ[m.relpath] = self.files_read[m.relpath][:12]
         return m
 
     def load_file(self, relpath: str) -> Module:
